@@ -71,7 +71,8 @@ where
         let reference_sequence_repository = self.get_ref().reference_sequence_repository().clone();
         let compression_header = self.container.compression_header()?;
 
-        let mut records = Vec::with_capacity(self.container.header().record_count());
+        // The count is read from the stream and cannot be trusted for preallocation.
+        let mut records = Vec::new();
 
         for result in self.container.slices() {
             let slice = result?;
